@@ -47,7 +47,22 @@ def run(ctx):
     clause_f(ctx, fx)
     clause_h(ctx, fx)
     clause_i(ctx, fx)
+    clause_j(ctx, fx)
     clause_g(ctx, fx)
+
+
+def clause_j(ctx, fx):
+    """'…for every signing algorithm and both formats': the algorithm the verifier checks the issuer-signed JWT with is read from the token
+    the same way whichever parser stored it (sibling agreement of C10.F2 on sign_alg): a parser that loses the algorithm makes the verifier
+    fall back to the default and reject honest EdDSA / HS256 credentials in that format"""
+    import c10
+    import callgraph as _cg
+    import vmodel
+    ps = c10.parsers(fx)
+    if len(ps) != 2:
+        return
+    vreach = _cg.reachable_from(_cg.build(fx), [vmodel.NEW])
+    c10.sibling(common.RelabelCtx(ctx, "C01.j", keep=("sign_alg",)), fx, ps, vreach)
 
 
 def clause_i(ctx, fx):
@@ -66,7 +81,7 @@ def clause_i(ctx, fx):
     c05.p4(r, fx, I)
     c05.p5(r, fx, I)
     # ..and every member / element of the claims reaches the payload (visible or as a disclosure): nothing is passed over by the builders
-    r2 = common.RelabelCtx(ctx, "C01.i", keep=("child-accounted",))
+    r2 = common.RelabelCtx(ctx, "C01.i", keep=("child-accounted", "visible-container-writes"))
     for B in (I.obj_builder, I.list_builder):
         if B is not None:
             c05.p1_p2(r2, fx, I, B)
